@@ -6,7 +6,7 @@ mesh; structure is compared exactly, coordinates bit-exactly against the rnd ima
 (text: float('%.6g' % x), .mesh: float32).  The files the writers produce are compared token by token /
 byte by byte with the model's streams.  The property's own relation (mesh before vs mesh after) is evaluated on the
 implementation's output directly."""
-import os, sys, json, struct, math
+import os, sys, json, struct, math, time, subprocess
 import core, ombuild, gen, models
 
 PROP = "C15"
@@ -261,11 +261,12 @@ def geometry_pass(ck, hb, tooldir, rng, quick):
         cond = 1 if (kind == "Head1" or n % 2 == 0) else 0
         for fmt in range(4):
             gcases.append("c15 9 %d %d %d %d" % (fmt, gid, cond, 1 if (kind in ("nested", "Head1") and n % 2 == 1) else 0))
-    rc, io, err = core.run_harness(hb, gcases, ck.workdir, env={"OM_TOOLS": tooldir})
+    io = run_harness_bounded(hb, gcases, ck.workdir, tooldir, 40.0)
     mcases = []; expect = []; nmesh = 0
     for c, i in zip(gcases, io):
         w = [int(x) for x in c.split()[1:]]; fmt, gid = w[1], w[2]
         what = "meshes of a Geometry (%s) saved as %s" % (desc[gid], FMT[fmt])
+        if i == "CRASH skipped": continue
         if i.startswith("CRASH") or i.split()[0] != "0":
             ck.violation("geometry load: %s" % desc[gid], "the generated geometry could not be loaded by the implementation (%s): %s" % (i[:40], what),
                          dict(kind="geometry", cases=[c]), found_input=False)
@@ -322,10 +323,11 @@ def size_pass(ck, hb, tooldir, rng, quick):
                 for fmt in range(4):
                     cases.append(("%s with %d triangles, %d vertices" % (nm, len(ts), len(vs)), fmt,
                                   "c15 " + " ".join(map(str, [1, fmt, 1] + mesh_wire(vs, ts) + [0]))))
-    rc, io, err = core.run_harness(hb, [c for _, _, c in cases], ck.workdir, env={"OM_TOOLS": tooldir})
+    io = run_harness_bounded(hb, [c for _, _, c in cases], ck.workdir, tooldir, 45.0)
     bad = 0
     for (what, fmt, c), i in zip(cases, io):
-        r = "crash" if i.startswith("CRASH") else None
+        if i == "CRASH skipped": continue
+        r = ("time limit" if i == "CRASH timeout" else "crash") if i.startswith("CRASH") else None
         if r is None:
             o = [int(x) for x in i.split()]
             if o[0] != 0: r = "build failed"
@@ -518,14 +520,49 @@ def rebuild(line, ts_new, which=0):
         mid = mesh_wire(vs, ts_new); rest = w[p:]
     return "c15 " + " ".join(map(str, w[:hdr] + mid + rest))
 
-def run_both(ck, hb, cases, tooldir):
+def run_harness_bounded(hb, cases, workdir, tooldir, budget, per_case=0.25, floor=15.0, max_timeouts=2):
+    """Runs the harness over the cases with a hard wall-clock bound whatever the implementation does.
+    One invocation gets min(remaining budget, floor + per_case * #cases) seconds.  A case in flight when the time runs out is
+    answered 'CRASH timeout' (reported as a violation '(time limit)'); a crash is 'CRASH <rc>'; after max_timeouts timeouts or when the
+    budget is used up the remaining cases are answered 'CRASH skipped' (not judged)."""
+    e = dict(os.environ); e["OMP_NUM_THREADS"] = "1"; e["OPENBLAS_NUM_THREADS"] = "1"; e["OM_TOOLS"] = tooldir
+    deadline = time.time() + budget
+    outs = []; start = 0; timeouts = 0
+    while start < len(cases):
+        left = deadline - time.time()
+        if left <= 1.0 or timeouts >= max_timeouts:
+            outs += ["CRASH skipped"] * (len(cases) - start); break
+        n = len(cases) - start
+        cf = os.path.join(workdir, "bcases.txt")
+        with open(cf, "w") as fh: fh.write("\n".join(cases[start:]) + "\n")
+        to = min(left, floor + per_case * n)
+        try:
+            p = subprocess.run([hb, cf], stdout=subprocess.PIPE, stderr=subprocess.PIPE, timeout=to, env=e, cwd=workdir)
+            rc = p.returncode; so = p.stdout
+        except subprocess.TimeoutExpired as te:
+            rc = None; so = te.stdout or b""
+        out = so.decode(errors="replace").split("\n")
+        if out and out[-1] == "": out.pop()
+        if rc is None and out and not so.endswith(b"\n"): out.pop()      # partial last line
+        out = out[:n]
+        outs += out
+        if rc == 0 and len(out) == n: break
+        if len(out) < n:
+            if rc is None: outs.append("CRASH timeout"); timeouts += 1
+            else: outs.append("CRASH %d" % rc)
+        start = len(outs)
+    return outs
+
+def run_both(ck, hb, cases, tooldir, budget=60.0):
     mo = core.run_model(cases)
-    rc, io, err = core.run_harness(hb, cases, ck.workdir, env={"OM_TOOLS": tooldir})
+    io = run_harness_bounded(hb, cases, ck.workdir, tooldir, budget)
     return mo, io
 
 def judge(ck, line, m, i, cid):
     """returns None when the case agrees, else (kind, text)"""
     w = parse_case(line); op = w[0]
+    if i == "CRASH skipped": return None
+    if i == "CRASH timeout": return ("time limit", "the implementation did not answer within the time limit of the harness run (time limit)")
     if m == "-1" or i == "-1": return ("malformed", "generator produced a malformed case")
     if op == 2:
         mw = [int(x) for x in m.split()]
@@ -544,6 +581,7 @@ def judge(ck, line, m, i, cid):
 def shrink(ck, hb, tooldir, line, pred, rounds=6):
     """greedy removal of triangles while pred(model_out, impl_out, line) still holds"""
     cur = line
+    if not hasattr(ck, "shrink_deadline"): ck.shrink_deadline = time.time() + 60.0      # the whole shrink phase gets 60 s
     if len(line) > 20000: return cur          # large meshes (size-boundary cases) are reported as they are: each candidate costs seconds
     for _ in range(rounds):
         name, ms = describe(cur)
@@ -554,8 +592,8 @@ def shrink(ck, hb, tooldir, line, pred, rounds=6):
             for k in range(len(ts)):
                 cands.append(rebuild(cur, ts[:k] + ts[k + 1:], which))
         cands = cands[:24]
-        if not cands: break
-        mo, io = run_both(ck, hb, cands, tooldir)
+        if not cands or time.time() > ck.shrink_deadline: break
+        mo, io = run_both(ck, hb, cands, tooldir, budget=max(2.0, min(20.0, ck.shrink_deadline - time.time())))
         nxt = None
         for c, m, i in zip(cands, mo, io):
             if pred(c, m, i): nxt = c; break
@@ -663,7 +701,15 @@ def main(replay=None):
             if wind == "inward": ts = [(a, c_, b) for a, b, c_ in ts]
             fa, fb, fc = chains[(n + ck.seed) % len(chains)]
             cases.append(case_chain(fa, fb, fc, 1, len(cases), vs, ts)); labels.append("chain:%s,%s,mag%+d" % (topo, wind, round(math.log10(mag))))
-    mo, io = run_both(ck, hb, cases, tooldir)
+    # small cases first, in their own harness invocation; the large meshes (size boundaries, level-3 spheres) afterwards
+    small = [k for k, c in enumerate(cases) if len(c) <= 20000]; large = [k for k, c in enumerate(cases) if len(c) > 20000]
+    mo = [None] * len(cases); io = [None] * len(cases)
+    for idx, budget in ((small, 70.0), (large, 50.0)):
+        if not idx: continue
+        sub = [cases[k] for k in idx]
+        io_s = run_harness_bounded(hb, sub, ck.workdir, tooldir, budget)
+        mo_s = core.run_model(sub)
+        for k, m_, i_ in zip(idx, mo_s, io_s): mo[k] = m_; io[k] = i_
     dist = {}; tagdist = {}; nontriv = set(); mism = []; relfail = []; errpaths = 0; files_cmp = 0
     for cid, (c, lab, m, i) in enumerate(zip(cases, labels, mo, io)):
         op = int(c.split()[1]); dist[OPN[op]] = dist.get(OPN[op], 0) + 1
@@ -693,7 +739,6 @@ def main(replay=None):
     ngeo = (0, 0); nsize = 0
     if not replay:
         ngeo = geometry_pass(ck, hb, tooldir, rng, quick)
-        nsize = size_pass(ck, hb, tooldir, rng, quick)
     # loading into a used object (op 7): fresh and reused loads must describe the same mesh
     for c, lab, m, i in zip(cases, labels, mo, io):
         if c.split()[1] != "7" or i.startswith("CRASH"): continue
@@ -719,16 +764,23 @@ def main(replay=None):
     for n, (c, lab, m, i, (kind, text)) in enumerate(mism[:6]):
         op = int(c.split()[1])
         pred = lambda cc, mm, ii: judge(ck, cc, mm, ii, 0) is not None
-        c2 = shrink(ck, hb, tooldir, c, pred) if (kind != "malformed" and n < 2) else c
+        c2 = shrink(ck, hb, tooldir, c, pred) if (kind not in ("malformed", "time limit") and n < 2) else c
         name = describe(c2)[0]
-        ck.violation("%s: model and implementation differ: %s" % (name, short(c2)[:200]),
+        ck.violation(("%s (time limit): %s" if kind == "time limit" else "%s: model and implementation differ: %s") % (name, short(c2)[:200]),
                      "%s: the implementation does not behave like the model proved in Properties_C15.v (%s) on %s" % (name, text[:300], short(c2)),
                      dict(kind="correspondence", cases=[c2], original=[c], model=[m[:2000]], impl=[i[:2000]], replay_cmd="./check C15 --replay <this file>"),
                      found_input=True)
+    if not replay:
+        nsize = size_pass(ck, hb, tooldir, rng, quick)      # large meshes last: small failing cases are reported first
     # refuted theorems must reproduce on the real code (else the model is wrong)
     if not replay:
         for (name, c) in wit:
             k = cases.index(c); i = io[k]; m = mo[k]
+            if i.startswith("CRASH"):
+                if i != "CRASH skipped":
+                    ck.violation("witness %s does not reproduce" % name, "the witness case crashed or timed out on the implementation (%s): %s" % (i, short(c)),
+                                 dict(kind="witness", cases=[c], impl=[i]), found_input=True)
+                continue
             o = [int(x) for x in i.split()]
             before, p = parse_dump(o, 1); after = parse_dump(o, p + 1)[0] if o[p] == 0 else None
             if name == "bowtie":
@@ -744,7 +796,7 @@ def main(replay=None):
                        "x {tri,off,bnd,mesh} round trips + writer streams (incl. vtk) + merge + om_mesh_convert/om_mesh_concat; non-trivial = more than 40 integers; distinct = distinct case lines",
                   samples=[short(c) for c in cases[len(cases) // 2:len(cases) // 2 + 3]], op_distribution=dist, feature_distribution=tagdist,
                   error_outcomes=errpaths, correspondence_mismatches=len(mism), property_relation_failures=len(relfail),
-                  writer_files_compared=files_cmp, large_size_roundtrips_impl_only=nsize, geometry_saves=ngeo[0], geometry_meshes_roundtripped=ngeo[1], traces_validated_against_impl=len(cases))
+                  writer_files_compared=files_cmp, large_size_roundtrips_impl_only=nsize, skipped_cases_time_budget=sum(1 for x in io if x == "CRASH skipped"), geometry_saves=ngeo[0], geometry_meshes_roundtripped=ngeo[1], traces_validated_against_impl=len(cases))
     ck.cov["trusted_base"] += ["hand-written Gallina model coq/Geom/MeshCodec.v tied by exact differential runs (harness/h_c15.cpp vs extracted extract/omm) and by token/byte comparison of the written files",
                                "extraction: ExtrOcamlBasic only; OCaml driver extract/main.ml",
                                "Python: rnd images float('%.6g' % x) and float32 via struct; tokenisation of the written files by whitespace"]
